@@ -104,6 +104,8 @@ def gen_adapter(rng, end, name=None, allow_linked=True, allow_params=True, simpl
             edge = rng.choice(RATE_EDGES)
             s = rand_seq(rng, edge[1])
         r = rng.random()
+        if edge:
+            r = 0.0  # never anchored: cutadapt's index of anchored adapters enumerates all variants within the error bound
         s_canon = s
         if not simple and not edge:
             # other spellings cutadapt accepts for the same adapter: lower case, U for T
